@@ -1901,6 +1901,7 @@ class Population:
 
         # Solve the linear system (nb. lstsq returns the minimum norm solution
         x = np.linalg.lstsq(A, b.ravel(), rcond=None)[0].reshape(-1, 1)
+        x[(x < 0) & (x >= -model_settings["tolerance"])] = 0.0  # Sizes that are negative within the tolerance are stored as zero (below), so the checks that follow are made on what is stored
         proposed = np.matmul(A, x)
         residual = np.sum((proposed.ravel() - b.ravel()) ** 2)
 
